@@ -11,8 +11,15 @@ rev r3, inv r2, inv r3, text f@r2, text f@r3, sig r2} (+ for 2a the CHK pages of
 inv r2 and of inv r3) and is finished in every way of {commit, abort,
 suspend->resume->commit, suspend->resume->abort, suspend->unlock->resume in a NEW
 repository object->commit, suspend twice->commit, insert half->suspend->resume->
-insert the rest->commit}; the commit step is what a stream sink does:
-get_missing_parent_inventories() (stacked formats), then commit_write_group().
+insert the rest->commit}, plus the direct commit preceded by what a stream sink
+checks (sink-commit: get_missing_parent_inventories(), then commit_write_group()).
+Multi-round finishes split the subset (by prefixes of the insertion order) over 2
+rounds (round 1->suspend->resume->round 2->suspend->resume->commit: two resumed
+packs that both hold data) and 3 rounds (the third stays in the new pack), with
+the resume in the same and in a NEW repository object; stacked targets finish
+them like a stream sink.  Quick: cuts after item 1 and after the middle item, on
+2a/r1, 2a/stacked, pack-0.92/r1, 1.9/stacked; thorough: every 2-way and 3-way
+prefix split on every configuration.
 
 Oracle, per the statement: (1) after any abort - direct, of a resumed group, or
 after a refused commit - the visible state (all_revision_ids; keys and full
@@ -50,6 +57,8 @@ MENU_CHK = MENU + ("chk2", "chk3")
 FINISHES = ("commit", "sink-commit", "abort", "sr-commit", "sr-abort", "snew-commit", "s2-commit", "s2new-commit",
             "split-commit")
 RESUMING = ("sr-commit", "sr-abort", "snew-commit", "s2-commit", "s2new-commit", "split-commit")
+MULTI = ("r2same-commit", "r2new-commit", "r3same-commit", "r3new-commit")
+MULTI_CONFIGS_Q = (("2a", "r1"), ("2a", "stacked"), ("pack-0.92", "r1"), ("1.9", "stacked"))
 CONFIGS_Q = (("2a", "empty"), ("2a", "r1"), ("2a", "stacked"), ("pack-0.92", "empty"), ("pack-0.92", "r1"),
              ("1.9", "stacked"))
 CONFIGS_T = CONFIGS_Q + (("1.9", "r1"), ("1.9", "empty"))
@@ -314,8 +323,30 @@ def innermost(err):
     return tb[-1].name if tb else "?"
 
 
-def run_flow(e, target, order, finish, fault_k=None):
-    """Run one (subset, finish) on a restored target.  Returns dict; raises Observed for violations."""
+def suspend_resume(e, target, repo, new_object, before_names, before_vis=None):
+    """suspend the write group; resume it in the same or in a new repository object.  Returns the repo."""
+    tokens = repo.suspend_write_group()
+    if e.pack_names() != before_names:
+        raise Observed("suspend:pack-names-changed", {})
+    if new_object:
+        repo.unlock()
+        if before_vis is not None:
+            fresh = e.open(target)
+            with fresh.lock_read():
+                if visible(fresh) != before_vis:
+                    raise Observed("suspend:suspended-data-visible", {})
+        repo = e.open(target)
+        repo.lock_write()
+    repo.resume_write_group(tokens)
+    return repo
+
+
+def run_flow(e, target, order, finish, fault_k=None, cuts=None, sink=False):
+    """Run one (subset, finish) on a restored target.  Returns dict; raises Observed for violations.
+
+    Multi-round finishes (r2same/r2new/r3same/r3new): `cuts` splits `order` into rounds; after each
+    round but the last of an r3 flow the group is suspended and resumed, so that the final commit
+    has two resumed packs that both hold data (r3: plus a new pack)."""
     s = e.store
     s.restore(e.snapshot(target))
     before_vis, before_names, before_files = e.before[target]
@@ -324,11 +355,24 @@ def run_flow(e, target, order, finish, fault_k=None):
     outcome = None
     steps = 0
     fired = None
+    phase = finish if fault_k is None else "fault+abort"
     try:
         try:
             repo.start_write_group()
             steps += 1
-            if finish == "split-commit":
+            if finish in MULTI:
+                bounds = [0] + list(cuts) + [len(order)]
+                parts = [order[bounds[i]:bounds[i + 1]] for i in range(len(bounds) - 1)]
+                new_object = finish in ("r2new-commit", "r3new-commit")
+                if len(parts) != (2 if finish.startswith("r2") else 3) or not all(parts):
+                    raise HarnessError("bad cuts %r for %s of %r" % (cuts, finish, order))
+                for i, part in enumerate(parts):
+                    insert(e, repo, part)
+                    if i < 2:       # r2: both rounds are suspended; r3: the third round stays in the new pack
+                        repo = suspend_resume(e, target, repo, new_object, before_names,
+                                              before_vis if i == 0 else None)
+                        steps += 2
+            elif finish == "split-commit":
                 half = (len(order) + 1) // 2
                 insert(e, repo, order[:half])
             else:
@@ -366,7 +410,7 @@ def run_flow(e, target, order, finish, fault_k=None):
             else:
                 hook = crash.FaultAt(fault_k) if fault_k is not None else None
                 try:
-                    outcome = try_commit(repo, finish == "sink-commit", s, hook)
+                    outcome = try_commit(repo, sink or finish == "sink-commit", s, hook)
                 except Exception:  # noqa
                     if hook is None or hook.fired is None:
                         raise
@@ -382,28 +426,36 @@ def run_flow(e, target, order, finish, fault_k=None):
                     if outcome.startswith("refused") and e.pack_names() != before_names:
                         raise Observed("commit:refused-but-pack-names-changed", {"outcome": outcome})
                     if repo.is_in_write_group():
-                        # error paths in breezy abort with suppress_errors=True
-                        repo.abort_write_group(suppress_errors=(outcome == "fault"))
+                        # what breezy's callers do when commit_write_group raised (StreamSink, fetch, commit):
+                        # abort with suppress_errors=True; the state afterwards is what is judged
+                        repo.abort_write_group(suppress_errors=True)
                     steps += 1
             # the same object's view after the group is over
             if repo.is_in_write_group():
                 raise Observed("flow:write-group-still-open", {"outcome": outcome})
-            same_obj = visible(repo)
+            try:
+                same_obj = visible(repo)
+            except Exception as err:  # noqa  (e.g. index entries of an aborted pack whose data is gone)
+                same_obj = {"unreadable": "%s:%s" % (type(err).__name__, innermost(err))}
             early = None
-            if outcome == "fault":
+            if outcome == "fault" or (outcome.startswith("refused") and same_obj != before_vis):
                 # while this process still holds the lock: what do other processes see, what is on disk;
                 # then the process carries on with an unrelated write group
                 with _read_locked(e.open(target)) as fresh0:
                     early = {"vis": visible(fresh0), "names": e.pack_names(), "files": e.repo_files()}
                 from breezy.errors import LockContention
-                repo.start_write_group()
-                repo.texts.add_lines(XKEY, [], [b"unrelated\n"])
+                phase = "fault+abort" if outcome == "fault" else "refused-commit+abort"
                 try:
+                    repo.start_write_group()
+                    repo.texts.add_lines(XKEY, [], [b"unrelated\n"])
                     repo.commit_write_group()
                 except LockContention:
                     # the fault hit the release of the pack-names lock, which stays held (C27's subject)
                     early["blocked"] = True
                     repo.abort_write_group(suppress_errors=True)
+                except Exception as err:  # noqa
+                    raise Observed("%s:later-write-group-fails:%s:%s" % (phase, type(err).__name__, innermost(err)),
+                                   {"error": repr(err)[:300], "outcome": outcome})
                 steps += 2
         finally:
             if repo.is_in_write_group():
@@ -418,15 +470,13 @@ def run_flow(e, target, order, finish, fault_k=None):
     except Observed:
         raise
     except Exception as err:  # noqa
-        raise Observed("%s:%s:%s" % (finish if fault_k is None else "fault+abort", type(err).__name__, innermost(err)),
-                       {"error": repr(err)[:300]})
+        raise Observed("%s:%s:%s" % (phase, type(err).__name__, innermost(err)), {"error": repr(err)[:300]})
     try:
         fresh = e.open(target)
         with fresh.lock_read():
             vis = visible(fresh)
     except Exception as err:  # noqa
-        raise Observed("%s:unreadable-afterwards:%s:%s" % (finish if fault_k is None else "fault+abort",
-                                                          type(err).__name__, innermost(err)),
+        raise Observed("%s:unreadable-afterwards:%s:%s" % (phase, type(err).__name__, innermost(err)),
                        {"error": repr(err)[:300], "outcome": outcome})
     if early is not None:
         vis2 = {k: (dict(v) if isinstance(v, dict) else v) for k, v in vis.items()}
@@ -508,6 +558,65 @@ def orders(S, thorough):
     return (S, S[::-1]) if thorough and len(S) > 1 else (S,)
 
 
+def judge(e, target, S, finish, r, dem, sink_dem, reason, ref):
+    """Signature of the first clause of the statement that run r violates, or None.
+    ref = the run to compare a resuming flow with (the direct / sink commit of the same subset)."""
+    sig = None
+    if r["outcome"] == "aborted" or r["outcome"].startswith("refused"):
+        what = "abort" if r["outcome"] == "aborted" else "refused-commit+abort"
+        if finish not in ("commit", "abort", "sink-commit"):
+            what += ":resumed"
+        sig = check_unchanged(e, target, r, what)
+    elif r["outcome"] == "accepted":
+        sig = check_accepted(e, target, S, r, finish)
+    else:
+        sig = "flow:unexpected-outcome:%s" % r["outcome"]
+    if sig is None and finish in ("commit", "sink-commit"):
+        want = dem if finish == "commit" else sink_dem
+        if want == "refuse" and r["outcome"] == "accepted":
+            sig = "%s:accepted-although-%s" % (finish, reason)
+        elif want == "accept" and r["outcome"] != "accepted":
+            sig = "%s:complete-group-%s" % (finish, r["outcome"].replace(":", "-"))
+        elif finish == "sink-commit" and ref is not None and ref["outcome"].startswith("refused") \
+                and r["outcome"] == "accepted":
+            sig = "sink-commit:accepted-what-direct-commit-refuses"
+    if sig is None and (finish in RESUMING or finish in MULTI) and finish != "sr-abort" and ref is not None:
+        if r["outcome"].split(":")[0] != ref["outcome"].split(":")[0]:
+            sig = "%s:outcome-differs-from-direct-commit:direct-%s-resumed-%s" % (
+                finish, ref["outcome"].split(":")[0], r["outcome"].split(":")[0])
+        elif r["vis"] != ref["vis"]:
+            sig = "%s:visible-state-differs-from-direct-commit" % finish
+    return sig
+
+
+def published_later(e, target, r):
+    """After a refused commit + abort the object went on with an unrelated write group: did that publish the
+    refused group's data?"""
+    after = r.get("after_followup")
+    return after is not None and after != e.before[target][0]
+
+
+def round_plans(n, thorough):
+    """[(finish, cuts)] for a subset of n items: prefix splits by insertion order."""
+    out = []
+    if n < 2:
+        return out
+    if thorough:
+        for k in range(1, n):
+            out.append(("r2same-commit", (k,)))
+            out.append(("r2new-commit", (k,)))
+        for k1 in range(1, n - 1):
+            for k2 in range(k1 + 1, n):
+                out.append(("r3new-commit" if (k1 + k2) % 2 else "r3same-commit", (k1, k2)))
+        return out
+    for k in sorted({1, (n + 1) // 2}):
+        out.append(("r2same-commit", (k,)))
+        out.append(("r2new-commit", (k,)))
+    if n >= 3:
+        out.append(("r3new-commit", (1, (n + 2) // 2)))
+    return out
+
+
 def _work(chunk):
     acc = par.Acc()
     acc.states = set()
@@ -525,7 +634,7 @@ def _work(chunk):
             base = {"format": fmt, "target": target, "inserted": list(order), "statement_demands": dem,
                     "reason": reason}
             key0 = (len(S), fmt, target, order)
-            ref = None
+            ref = ref_sink = None
             for finish in FINISHES:
                 acc.n += 1
                 d = dict(base, finish=finish)
@@ -550,36 +659,46 @@ def _work(chunk):
                             break
                 if 0 < len(S) < len(e.menu):
                     acc.nt((fmt, target, order, finish))
-                sig = None
-                if r["outcome"] == "aborted" or r["outcome"].startswith("refused"):
-                    what = "abort" if r["outcome"] == "aborted" else "refused-commit+abort"
-                    if finish not in ("commit", "abort"):
-                        what += ":resumed"
-                    sig = check_unchanged(e, target, r, what)
-                elif r["outcome"] == "accepted":
-                    sig = check_accepted(e, target, S, r, finish)
-                else:
-                    sig = "flow:unexpected-outcome:%s" % r["outcome"]
-                if sig is None and finish in ("commit", "sink-commit"):
-                    want = dem if finish == "commit" else sink_dem
-                    if want == "refuse" and r["outcome"] == "accepted":
-                        sig = "%s:accepted-although-%s" % (finish, reason)
-                    elif want == "accept" and r["outcome"] != "accepted":
-                        sig = "%s:complete-group-%s" % (finish, r["outcome"].replace(":", "-"))
-                    elif finish == "sink-commit" and ref is not None and ref["outcome"].startswith("refused") \
-                            and r["outcome"] == "accepted":
-                        sig = "sink-commit:accepted-what-direct-commit-refuses"
-                if sig is None and finish in RESUMING and finish != "sr-abort" and ref is not None:
-                    if r["outcome"].split(":")[0] != ref["outcome"].split(":")[0]:
-                        sig = "%s:outcome-differs-from-direct-commit:direct-%s-resumed-%s" % (
-                            finish, ref["outcome"].split(":")[0], r["outcome"].split(":")[0])
-                    elif r["vis"] != ref["vis"]:
-                        sig = "%s:visible-state-differs-from-direct-commit" % finish
+                sig = judge(e, target, S, finish, r, dem, sink_dem, reason, ref)
                 if finish == "commit":
                     ref = r
+                if finish == "sink-commit":
+                    ref_sink = r
+                if published_later(e, target, r):
+                    viol("%s:refused-commit+abort:aborted-data-published-by-later-write-group" % fmt_class(fmt),
+                         key0 + (finish,), dict(d, outcome=r["outcome"]))
                 if sig is not None:
                     viol("%s:%s" % (fmt_class(fmt), sig), key0 + (finish,), dict(d, outcome=r["outcome"],
                          direct_commit_outcome=ref["outcome"] if ref else None))
+            # several rounds of insertions with a suspend/resume between them: the final commit has two
+            # resumed packs that both hold data.  Stacked targets finish like a stream sink.
+            sink = target == "stacked"
+            mref = ref_sink if sink else ref
+            if mref is not None and (thorough or (fmt, target) in MULTI_CONFIGS_Q):
+                for finish, cuts in round_plans(len(order), thorough):
+                    acc.n += 1
+                    acc.count("multi_round_runs")
+                    d = dict(base, finish=finish, rounds=[list(order[a:b]) for a, b in
+                                                          zip((0,) + cuts, cuts + (len(order),))],
+                             final_step="sink-commit" if sink else "commit")
+                    try:
+                        r = run_flow(e, target, order, finish, cuts=cuts, sink=sink)
+                    except Observed as o:
+                        viol("%s:%s" % (fmt_class(fmt), o.sig), key0 + (finish,) + cuts, dict(d, **o.info))
+                        continue
+                    acc.count("transitions", r["steps"])
+                    acc.states.add((fmt, target, frozenset(S), finish, cuts, digest(r["vis"]), r["outcome"]))
+                    acc.outcomes.add((fmt, target, finish, r["outcome"], sink_dem if sink else dem))
+                    acc.nt((fmt, target, order, finish, cuts))
+                    sig = judge(e, target, S, finish, r, dem, sink_dem, reason, mref)
+                    if sig is None and (sink_dem if sink else dem) == "refuse" and r["outcome"] == "accepted":
+                        sig = "%s:accepted-although-%s" % (finish, reason)
+                    if sig is not None:
+                        viol("%s:%s" % (fmt_class(fmt), sig), key0 + (finish,) + cuts,
+                             dict(d, outcome=r["outcome"], direct_commit_outcome=mref["outcome"]))
+                    if published_later(e, target, r):
+                        viol("%s:refused-commit+abort:aborted-data-published-by-later-write-group" % fmt_class(fmt),
+                             key0 + (finish,) + cuts, dict(d, outcome=r["outcome"]))
             if len(acc.samples) < 2 and 0 < len(S) < 4:
                 acc.sample({"format": fmt, "target": target, "inserted": list(order),
                             "direct_commit": ref["outcome"] if ref else None, "statement_demands": dem})
@@ -713,6 +832,7 @@ def run(ctx):
         "subsets": len(items),
         "configs": ["%s/%s" % c for c in configs],
         "finishes": list(FINISHES),
+        "multi_round_runs": acc.counters.get("multi_round_runs", 0),
         "fault_runs": sum(a.n for a in faccs),
         "faults_after_commit_point": acc.counters.get("faults_after_commit_point", 0),
         "knitpack_accepts_new_revision_without_inventory": acc.counters.get("knitpack_accepts_new_revision_without_inventory", 0),
@@ -736,7 +856,7 @@ def replay(ctx, data):
     if "fault_at_op" in d:
         acc = _fault_work([(fmt, target, S, d["finish"])])
     else:
-        acc = _work([(fmt, target, S, order != S)])
+        acc = _work([(fmt, target, S, True)])
     for sig, (key, det) in sorted(acc.best.items()):
         print("  %s: %s" % (sig, {k: det[k] for k in det if k not in ("format", "target")}))
     return data["signature"] not in acc.best
